@@ -295,6 +295,29 @@ func (w *world) verifyFunc(con *Contract, fn *ssa.Function, mode string, variant
 			}
 		}
 	}
+	// probes: entry values of the abstract fields of node-typed parameters
+	for _, p := range fn.Params {
+		if !x.isNodeIface(p.Type()) {
+			continue
+		}
+		pv := fr.regs[p]
+		if pv.t.s == "" {
+			continue
+		}
+		for _, f := range []string{"weight", "state", "queueType", "expiresAt", "refreshableAt"} {
+			arr := "G_" + f
+			hi, ok := x.hinfo["G:"+f]
+			if !x.seen[arr] || !ok || !(hi.elem.isBV() || hi.elem.isBool()) || len(hi.ksorts) != 1 {
+				continue
+			}
+			name := symName("probe_" + p.Name() + "." + f)
+			if !x.seen[name] {
+				x.seen[name] = true
+				x.decls = append(x.decls, fmt.Sprintf("(define-fun %s () %s (select %s %s))", name, hi.elem.name, arr, pv.t.s))
+				modelVars = append(modelVars, name)
+			}
+		}
+	}
 	res.ModelVar = modelVars
 	res.Obls = w.discharge(x, con, mode, res.Variant, modelVars, opts)
 	return res
